@@ -224,8 +224,8 @@ func legC04Analysis2(c *Ctx) {
 			if cs != nil {
 				runes = c04an2ClsRunes(cs, runes)
 			}
-			// + the hypothesis lits_ok of the C04 theorems, expected of every real tree
-			return implRes{append(encOptCls(cs, used), 1), cs != nil}
+			// + the hypotheses lits_ok (tree) and cls_good_b (exported classes) of the C04 theorems, expected of every real tree
+			return implRes{append(encOptCls(cs, used), 1, 1), cs != nil}
 		})
 		for _, th := range []bool{false, true} {
 			th := th
@@ -358,7 +358,7 @@ func legC04Analysis2(c *Ctx) {
 		var setEnc []int64
 		setEnc = append(setEnc, int64(len(sets)))
 		for _, s := range sets {
-			setEnc = append(setEnc, encCls(s, used)...)
+			setEnc = append(setEnc, encClsNB(s, used)...) // without ASCII bitmaps: CharIn = charInSlow is C16's tie
 		}
 		var all []rune
 		for _, r := range dedupRunes(runes) {
